@@ -31,73 +31,60 @@ func checkC11(p *Prog, c *Check) {
 
 func c11Config(p *Prog, c *Check) {
 	rule := "C11-R1"
-	fn, err := p.Func("app.ShutterApp.deliverBatchConfig")
-	if !c.Must(err) {
+	ac := mustFn(p, c, "app.ShutterApp.addConfig")
+	if ac == nil {
 		return
 	}
-	c.Analysed(shortFn(fn))
-	fi := p.Info(fn)
-	sender := fi.T(fn.Params[2])
-	adds := p.CG().Callers(mustFn(p, c, "app.ShutterApp.addConfig"))
 	n := 0
-	for _, cs := range adds {
-		if origin(cs.Caller) != fn {
-			c.Fail(rule, "addConfig@"+shortFn(cs.Caller), p.siteOf(cs.Instr), shortFn(cs.Caller), "call of addConfig", "a configuration is added outside the voted path deliverBatchConfig")
+	for _, cs := range p.CG().Callers(ac) {
+		if isTestScaffold(cs.Caller) {
+			continue
+		}
+		call, isCall := cs.Instr.(*ssa.Call)
+		if !isCall {
+			c.Fail(rule, "addConfig@"+shortFn(cs.Caller), p.siteOf(cs.Instr), shortFn(cs.Caller), "call of addConfig", "addConfig is deferred or started as a goroutine")
 			continue
 		}
 		n++
-		call := cs.Instr.(*ssa.Call)
+		fn := cs.Caller
+		fi := p.Info(fn)
+		c.Analysed(shortFn(fn))
 		bc := fi.T(call.Common().Args[1])
-		b := Binds{"bc": bc, "sender": sender}
-		if !c.Guard(p, rule, "deliverBatchConfig:addConfig", call, "addConfig(bc)", b,
+		b := Binds{"bc": bc}
+		key := "addConfig@" + shortFn(fn)
+		// every guard may live in this function or (after an extract-function refactoring) in its callers;
+		// $sender is whoever the membership and vote facts agree on
+		if !c.Guard(p, rule, key, call, "addConfig(bc)", b,
 			"BatchConfigFromMessage(_)#1 == nil",
 			"checkConfig(_, $bc) == nil",
-			"allowedToVoteOnConfigChanges(_, $sender) == true",
+			"KeyperIndex(LastConfig(_), $sender)#1 == true",
 			"AddVote(_.ConfigVoting, $sender, $bc) == nil",
 			"Outcome(_.ConfigVoting, LastConfig(_).Threshold)#1 == true") {
 			continue
 		}
-		okSrc := ParsePat("BatchConfigFromMessage($msg)#0").Match(bc, Binds{"msg": fi.T(fn.Params[1])})
-		c.Result(okSrc, rule, "deliverBatchConfig:bc-source", p.siteOf(call), shortFn(fn), "config added", "the added configuration is not the one decoded from this transaction's message: "+bc.s, "BatchConfigFromMessage(msg)#0")
+		okSrc := p.termMatchesLifted(fn, bc, "BatchConfigFromMessage(_)#0", 0)
+		c.Result(okSrc, rule, key+":bc-source", p.siteOf(call), shortFn(fn), "config added", "the added configuration is not the one decoded from this transaction's message: "+bc.s, "BatchConfigFromMessage(msg)#0")
 		// voting reset on the path
 		reset := false
 		for _, blk := range fn.Blocks {
 			for _, in := range blk.Instrs {
 				if st, ok := in.(*ssa.Store); ok && ParsePat("_.ConfigVoting").Match(fi.T(st.Addr), Binds{}) && ParsePat("NewConfigVoting()").Match(fi.T(st.Val), Binds{}) {
 					if instrDominates(st, call) {
-						if _, has := findAtom(fi.FactsAt(st), "Outcome(_.ConfigVoting, _)#1 == true", Binds{}); has {
+						if ok, _, _, _ := p.guardLift(st, Binds{}, []string{"Outcome(_.ConfigVoting, _)#1 == true"}, 0); ok {
 							reset = true
 						}
 					}
 				}
 			}
 		}
-		c.Result(reset, rule, "deliverBatchConfig:reset", p.siteOf(call), shortFn(fn), "vote reset", "the config voting is not reset on the acceptance path (old votes would count for the next round)", "ConfigVoting = NewConfigVoting() under Outcome ok")
+		c.Result(reset, rule, key+":reset", p.siteOf(call), shortFn(fn), "vote reset", "the config voting is not reset on the acceptance path (old votes would count for the next round)", "ConfigVoting = NewConfigVoting() under Outcome ok")
 		// StartDKG(bc) after addConfig succeeded
 		for i, sc := range callsTo(fn, "(*app.ShutterApp).StartDKG") {
 			okD := fi.T(sc.Common().Args[1]).s == bc.s && fi.mustPassSuccess(call, sc.Block())
-			c.Result(okD, rule, fmt.Sprintf("deliverBatchConfig:StartDKG#%d", i+1), p.siteOf(sc), shortFn(fn), "StartDKG(bc)", "an eon is started for a configuration that was not successfully added in this transaction", "addConfig(bc) == nil dominates, same bc")
+			c.Result(okD, rule, fmt.Sprintf("%s:StartDKG#%d", key, i+1), p.siteOf(sc), shortFn(fn), "StartDKG(bc)", "an eon is started for a configuration that was not successfully added in this transaction", "addConfig(bc) == nil dominates, same bc")
 		}
 	}
 	c.Floor(rule, n, 1)
-
-	// allowedToVoteOnConfigChanges: membership in the LAST config
-	av, err := p.Func("app.ShutterApp.allowedToVoteOnConfigChanges")
-	if c.Must(err) {
-		afi := p.Info(av)
-		c.Analysed(shortFn(av))
-		sum := p.Summary(av, []ResultCond{{0, "true"}})
-		_, ok := findAtom(sum, "KeyperIndex(LastConfig($app), $s)#1 == true", Binds{"app": afi.T(av.Params[0]), "s": afi.T(av.Params[1])})
-		if !ok {
-			// returned directly: return ok
-			for _, r := range returnsOf(av) {
-				if ParsePat("KeyperIndex(LastConfig($app), $s)#1").Match(afi.T(r.Results[0]), Binds{"app": afi.T(av.Params[0]), "s": afi.T(av.Params[1])}) {
-					ok = true
-				}
-			}
-		}
-		c.Result(ok, rule+".member", "allowedToVoteOnConfigChanges", p.Rel(av.Pos()), shortFn(av), "returns true", "voting rights are not tied to membership in the last (current) configuration", "KeyperIndex(LastConfig(), sender) ok")
-	}
 	// checkConfig summary
 	cc, err := p.Func("app.ShutterApp.checkConfig")
 	if c.Must(err) {
@@ -992,4 +979,42 @@ func spillSources(v ssa.Value) []ssa.Value {
 		return []ssa.Value{v}
 	}
 	return out
+}
+
+// termMatchesLifted: the term matches the pattern in fn, or — when it is built from fn's parameters —
+// at every static call site of fn after substituting the arguments (two levels).
+func (p *Prog) termMatchesLifted(fn *ssa.Function, t *Term, pat string, depth int) bool {
+	if ParsePat(pat).Match(t, Binds{}) {
+		return true
+	}
+	if depth >= 2 {
+		return false
+	}
+	hasParam := false
+	t.walk(func(s *Term) {
+		if s.K == TParam {
+			hasParam = true
+		}
+	})
+	if !hasParam {
+		return false
+	}
+	n := 0
+	for _, cs := range p.CG().Callers(fn) {
+		if isTestScaffold(cs.Caller) || cs.Instr.Common().IsInvoke() {
+			continue
+		}
+		n++
+		cfi := p.Info(cs.Caller)
+		m := map[string]*Term{}
+		for i, prm := range fn.Params {
+			if i < len(cs.Instr.Common().Args) {
+				m[prm.Name()] = cfi.T(cs.Instr.Common().Args[i])
+			}
+		}
+		if !p.termMatchesLifted(cs.Caller, t.subst(m), pat, depth+1) {
+			return false
+		}
+	}
+	return n > 0
 }
